@@ -107,7 +107,7 @@ func (s *service) ServeHTTP(w http.ResponseWriter, r *http.Request) {
 		out := make([]ju, len(s.listing))
 		for i, u := range s.listing {
 			out[i] = ju{TxID: u.TxID, Vout: u.Vout, Value: u.Value,
-				Status: status{Confirmed: true, BlockHeight: u.Time / 600, BlockHash: strings.Repeat("0", 64), BlockTime: u.Time}}
+				Status: status{Confirmed: u.Time != 0, BlockHeight: u.Time / 600, BlockHash: strings.Repeat("0", 64), BlockTime: u.Time}}
 		}
 		_ = json.NewEncoder(w).Encode(out)
 	default:
@@ -379,8 +379,8 @@ func genUtxos(r *vgen.Rng, n int, total uint64) []Utxo {
 				t = u.Time
 			}
 		}
-		if r.Chance(1, 10) {
-			t = 0 // unconfirmed
+		if r.Chance(1, 4) {
+			t = 0 // unconfirmed (mempool.space reports confirmed=false, block_time 0)
 			for j := range us {
 				if us[j].TxID == id {
 					us[j].Time = 0
